@@ -248,7 +248,10 @@ def judge(opname, fixture, plan, out, pid, clean_value, acc):
                 viols.append((f"zombify_gives_{kind}:{opname}", desc))
         if fixture == "live" and not own_targets and len(plan) == 1:
             # a relative vanished/zombified: the caller itself is alive and well
-            if kind in ("NoSuchProcess", "ZombieProcess", "AccessDenied") and opname in ("children", "children_rec", "process_iter_attrs"):
+            denied = fired_actions[0] in ("EACCES", "EPERM")
+            if denied and kind == "AccessDenied":
+                pass        # something *was* refused: AccessDenied naming the refused process is a correct report
+            elif kind in ("NoSuchProcess", "ZombieProcess", "AccessDenied") and opname in ("children", "children_rec", "process_iter_attrs"):
                 viols.append((f"relative_fault_escapes_{kind}:{opname}", desc))
     else:
         acc.count("values_returned_under_fault")
